@@ -201,7 +201,8 @@ func parseParamValue(
 
 		if strings.HasPrefix(value, `"`) || strings.HasPrefix(value, "`") {
 			if strings.HasPrefix(value, `"`) {
-				value = strings.Trim(value, `"`)
+				// the match starts and ends with exactly one delimiting quote
+				value = value[1 : len(value)-1]
 				value = strings.ReplaceAll(value, `\"`, `"`)
 			}
 
